@@ -126,6 +126,7 @@ type GasScheduler interface {
 
 // Shard is one shard of the world.
 type Shard struct {
+	ChangeBeforeCreate bool // set before BuildContainer: the schedule in force reaches the factory as a CHANGE, before the container is created
 	StartEpoch *uint32 // set before BuildContainer: the notifier confirms this epoch to every subscriber at registration
 	Idx       int // index in World.Shards (the metachain shard, when present, is the last one)
 	ID        uint32
@@ -275,8 +276,19 @@ func (s *Shard) put(a *Account) { s.Accounts[string(a.Addr)] = a.Clone(s) }
 func (s *Shard) BuildContainer(gas map[string]map[string]uint64, dns map[string]struct{}, enableChange bool, activation uint32) error {
 	s.Notifier = &Notifier{Start: s.StartEpoch}
 	s.Marsh = &Marshalizer{F: &s.Faults}
+	construct := gas
+	if s.ChangeBeforeCreate {
+		// the factory is constructed under ANOTHER schedule (every price one higher) and told the schedule in force before the container
+		// exists: the functions it then creates must be priced by the schedule in force
+		construct = CloneGas(gas)
+		for _, sec := range construct {
+			for k := range sec {
+				sec[k]++
+			}
+		}
+	}
 	f, err := builtInFunctions.NewBuiltInFunctionsFactory(builtInFunctions.ArgsCreateBuiltInFunctionContainer{
-		GasMap:                              gas,
+		GasMap:                              construct,
 		MapDNSAddresses:                     dns,
 		EnableUserNameChange:                enableChange,
 		Marshalizer:                         s.Marsh,
@@ -287,6 +299,9 @@ func (s *Shard) BuildContainer(gas map[string]map[string]uint64, dns map[string]
 	})
 	if err != nil {
 		return err
+	}
+	if s.ChangeBeforeCreate {
+		f.GasScheduleChange(CloneGas(gas))
 	}
 	c, err := f.CreateBuiltInFunctionContainer()
 	if err != nil {
